@@ -47,6 +47,7 @@ def load_contracts(src):
         _rp.register_repeaters(src)
         _rp.register_array_build(src)
         _rp.register_greedyrange_build(src)
+        _rp.register_lazyarray_build(src)
         import contracts.repeatuntil as _ru
         _ru.register_repeatuntil(src)
         _ru.register_repeatuntil_build(src)
@@ -310,7 +311,12 @@ def verify_generic(src, gen_only, pid, timeout, tier):
             oors.append((q, '-', 'function no longer exists in the source'))
             continue
         for model, variant in [(m, v) for m in c.stream_models for v in c.variants]:
-            vr = c.verify(src, make, model, variant)
+            try:
+                vr = c.verify(src, make, model, variant)
+            except Exception as e:
+                oors.append((q, model if variant is None else '%s,%s' % (model, variant), 'executor error %s: %s' % (type(e).__name__, e)))
+                stats_tot['functions'] += 1
+                continue
             stats_tot['functions'] += 1
             mname = model if variant is None else '%s,%s' % (model, variant)
             if vr.out_of_reach:
@@ -390,9 +396,9 @@ def conclude(pid, P, tier, seed, a, t0, src, results, oor, stats, functions, ext
             if fails:
                 return True, {'input': fails[0], 'observed': '%d of %d directed round trips fail on the real code' % (len(fails), n), 'more': fails[1:6],
                               'source': 'native round-trip battery after failed obligation'}
-            if getattr(r, 'support', False):
+            if getattr(r, 'support', False) and 'C09' not in (getattr(r.ob, 'tags', None) or ()):
                 return None, 'supporting contract no longer holds, but %d directed round trips all succeed on the real code' % n
-        if pid == 'C09':
+        if pid == 'C09' or (getattr(r, 'support', False) and 'C09' in (getattr(r.ob, 'tags', None) or ())):
             from contracts import posbattery
             if 'pos' not in _cache:
                 try:
@@ -505,7 +511,34 @@ def conclude(pid, P, tier, seed, a, t0, src, results, oor, stats, functions, ext
                         violations.append('VIOLATION property=%s replay=%s obligation=%s no-failing-input-found' % (pid, fn, r.name))
                     continue
             undecided.append('UNDECIDED property=%s obligation=%s (%s)' % (pid, r.name, r.result.solver))
+    oor_done = set()
     for q, m, why in oor:
+        # a function that was verified on the unchanged tree (its obligations are in the lock) and can no longer be executed
+        # symbolically: its contract is still evaluated NATIVELY on the real code; an input on which a clause is false is a violation
+        fname = q.split(':')[-1]
+        was_verified = any(('/%s/' % fname) in k for k in locked)
+        if was_verified and q not in oor_done and m.startswith('bytesio') and not q.startswith('ghost:'):
+            oor_done.add(q)
+            c = contract.REGISTRY.get(q)
+            if m.endswith('generic'):
+                c = contract.GENERIC.get(q, c)
+            found = None
+            if c is not None and c.setup is not None:
+                try:
+                    from contracts import nativecheck
+                    if C is None:
+                        C = replay.import_repo()
+                    found, _stats = nativecheck.search(c, src, C, rng, 400 if tier == 'quick' else 5000)
+                except Exception as e:
+                    found = None
+            if found:
+                os.makedirs(replay_dir, exist_ok=True)
+                fn = os.path.join(replay_dir, hashlib.sha1(('oor:' + q).encode()).hexdigest()[:12] + '.json')
+                json.dump({'property': pid, 'function': q, 'obligation': 'contract of %s (function outside the executor after the change: %s)' % (q, why[:200]),
+                           'native': {'input': found, 'observed': 'contract clause false on the real code', 'source': 'native contract evaluation of a function that fell out of reach'}},
+                          open(fn, 'w'), indent=1, default=str)
+                violations.append('VIOLATION property=%s replay=%s obligation=%s/contract-evaluated-natively' % (pid, fn, fname))
+                continue
         undecided.append('UNDECIDED property=%s function=%s model=%s out-of-reach: %s' % (pid, q, m, why[:200]))
     # known findings: each listed finding that is hit is re-confirmed natively
     kf_lines = []
@@ -525,6 +558,8 @@ def conclude(pid, P, tier, seed, a, t0, src, results, oor, stats, functions, ext
         violations.append(v)
     for k in extras.get('known', []):
         kf_lines.append(k)
+    for u in extras.get('undecided', []):
+        undecided.append(u)
     # vacuity / lock
     keys_now = sorted({stable_key(r.name) for r in discharged})
     checker_errors = []
